@@ -47,3 +47,7 @@ chk('C11', 'exploration',
     'Every value yielded by matrix_iter (plain and verbose) for all 44 symbol sizes x borders x scales is compared with the module value / the type the ISO function-pattern map assigns to the position (exhaustive over positions); invalid borders / scales must raise ValueError; colourful PNG / SVG / PPM outputs with generated subsets of the 15 per-type colour options are parsed and every cell is compared with the colour configured for the type of its module. One known finding (K2) is matched at exactly one coordinate.',
     'Trusted: function-pattern map of vlib/qrref.py, raster/vector readers. Positions exhaustive; colour option subsets sampled.',
     'exhaustive enumeration of module positions + Hypothesis search over colour maps, outputs parsed by independent readers', 'DESIGN.md 4/C11')
+chk('C12', 'exploration',
+    'For generated symbols, kinds and option sets the document is produced through every route (stream+kind, file name, data URIs, svg_inline, svgz, in-process CLI with generated argv, CLI stdout vs terminal(), QRCodeSequence.save) and the results are compared byte by byte after masking the three timestamp fields; sequence file names and contents and unknown extensions are checked; outputs are parsed by the readers of their kind.',
+    'Differential between routes; the documented apostrophe substitution of SVG data URIs is undone by an own tokenizer; sampled.',
+    'Hypothesis search, differential comparison of output routes', 'DESIGN.md 4/C12')
